@@ -27,11 +27,27 @@ func RealLength(s string) int {
 // accounting for any ANSI escapes/color codes, and tabulations replaced with 4 spaces.
 func LineSpan(line []rune, idx, indent int) (x, y int) {
 	termWidth := term.GetWidth()
-	lineLen := RealLength(string(line))
-	lineLen += indent
 
-	cursorY := lineLen / termWidth
-	cursorX := lineLen % termWidth
+	// Lay out the graphemes like the terminal does: one that is wider than
+	// what is left of the row (a double-width character in the last column)
+	// goes to the next row as a whole, leaving the end of the row empty.
+	cursorY := indent / termWidth
+	cursorX := indent % termWidth
+
+	text := strings.ReplaceAll(color.Strip(string(line)), "\t", "     ")
+	graphemes := uniseg.NewGraphemes(text)
+
+	for graphemes.Next() {
+		width := graphemes.Width()
+		if cursorX+width > termWidth && width <= termWidth {
+			cursorY++
+			cursorX = 0
+		}
+
+		cursorX += width
+		cursorY += cursorX / termWidth
+		cursorX %= termWidth
+	}
 
 	// Empty lines are still considered a line.
 	if idx != 0 {
